@@ -299,6 +299,15 @@ def mjSplit (t : SplitTree) (ws : List Int) (thrB thrW : Int) : Nat :=
   let r := blockSearch ws.length thrB 0 (blocks t ws)
   walk ws thrW ws.length r.1 r.2
 
+/-- All split positions of a slab: the blocks are formed once, every threshold
+is searched in them (the code shares one pass over the blocks between the
+increasing thresholds; searching each from the start finds the same block). -/
+def mjSplits (t : SplitTree) (ws : List Int) (bounds : List (Int × Int)) : List Nat :=
+  let bs := blocks t ws
+  bounds.map (fun b =>
+    let r := blockSearch ws.length b.1 0 bs
+    walk ws b.2 ws.length r.1 r.2)
+
 /-- The schedule-free meaning: the first position whose prefix sum (inclusive)
 exceeds the threshold, `len` if there is none. -/
 def firstExceed (thr : Int) : Int → List Int → Nat
